@@ -24,7 +24,7 @@ func (c c09Cfg) mut(extra func(cf *memberlist.Config)) func(cf *memberlist.Confi
 		cf.EnableCompression = c.Compress
 		cf.Label = c.Label
 		cf.PushPullInterval = 0
-		cf.ProbeInterval = time.Hour
+		cf.ProbeInterval = noProbe
 		cf.GossipInterval = 0
 		cf.TCPTimeout = 3 * time.Second
 		if c.EncVsn >= 0 {
